@@ -486,3 +486,120 @@ func TestC07Arch(t *testing.T) {
 	}
 	ev.Exhaustive("C07", "architecture names known to the package + GOARCH values", n)
 }
+
+// ---- acceptance at the kernel's size limit ----
+
+type c07SizeCase struct {
+	Arch   string `json:"arch"`
+	Groups []int  `json:"groups"` // number of names per group (<= 200 each, so that no bridge is needed inside a group)
+	Seed   uint64 `json:"seed"`
+	Target int    `json:"target"` // aimed program length (informational)
+}
+
+func c07SizePolicy(c *c07SizeCase, drop int) spec.Policy {
+	u := gen.Universe(c.Arch)
+	p := spec.Policy{Arch: c.Arch, Default: oracle.Const("SECCOMP_RET_ERRNO")}
+	for gi, n := range c.Groups {
+		if gi == len(c.Groups)-1 {
+			n -= drop
+		}
+		if n < 0 {
+			n = 0
+		}
+		p.Groups = append(p.Groups, spec.Group{Action: oracle.Const("SECCOMP_RET_ALLOW"), Names: gen.Subset(u, c.Seed+uint64(gi), n)})
+	}
+	return p
+}
+
+// checkC07Size: a valid names-only policy near the 4096-instruction limit. The sizes of the two next smaller
+// policies are measured (one and two names fewer) and extrapolated linearly: if the policy would fit the limit
+// it must be accepted. Nothing is assumed about the layout except that one more name in the last group costs
+// what the previous name cost.
+func checkC07Size(raw json.RawMessage) (ev.Result, error) {
+	var c c07SizeCase
+	if err := json.Unmarshal(raw, &c); err != nil {
+		return ev.Result{}, ev.Inconclusivef("bad case: %v", err)
+	}
+	if len(c.Groups) == 0 || c.Groups[len(c.Groups)-1] < 3 {
+		return ev.Result{}, ev.Inconclusivef("last group too small")
+	}
+	length := func(drop int) (int, error) {
+		p := c07SizePolicy(&c, drop)
+		cp, err, pan := compilePolicy(&p)
+		if pan != nil {
+			return 0, fmt.Errorf("panic: %v", pan)
+		}
+		if err != nil {
+			return -1, err
+		}
+		return len(cp.insts), nil
+	}
+	l1, e1 := length(1)
+	l2, e2 := length(2)
+	if l1 < 0 || l2 < 0 {
+		return ev.Result{Classes: []string{"size:smaller-policies-rejected(no-claim)"}}, nil
+	}
+	if e1 != nil || e2 != nil {
+		return ev.Result{}, fmt.Errorf("Assemble panicked near the size limit: %v %v", e1, e2)
+	}
+	predicted := l1 + (l1 - l2)
+	l0, e0 := length(0)
+	res := ev.Result{Classes: []string{"size-boundary", fmt.Sprintf("size-predicted:%s", sizeClass(predicted))}}
+	if l0 >= 0 {
+		if e0 != nil {
+			return res, fmt.Errorf("Assemble panicked near the size limit: %v", e0)
+		}
+		res.Classes = append(res.Classes, fmt.Sprintf("size-accepted:%s", sizeClass(l0)))
+		res.NonTrivial = l0 >= 4090
+		return res, nil
+	}
+	if predicted <= 4096 {
+		return res, fmt.Errorf("valid names-only policy (%d groups, %s) rejected although it fits the kernel's limit: with one name fewer it compiles to %d instructions, with two fewer to %d, so it needs %d <= 4096: %v",
+			len(c.Groups), c.Arch, l1, l2, predicted, e0)
+	}
+	res.Classes = append(res.Classes, "size:too-large-rejected(allowed)")
+	return res, nil
+}
+
+func sizeClass(n int) string {
+	switch {
+	case n < 4090:
+		return "<4090"
+	case n <= 4100:
+		return fmt.Sprint(n)
+	}
+	return ">4100"
+}
+
+func drawC07Size(t *rapid.T) c07SizeCase {
+	c := c07SizeCase{Arch: drawArch(t), Seed: rapid.Uint64().Draw(t, "seed"), Target: rapid.IntRange(4090, 4099).Draw(t, "target")}
+	// every group of n names costs n+2 instructions here (n compares, the jump over the action, the action); the
+	// fixed part is 4 (6 with the x32 guard). This estimate only steers the generator; the check measures.
+	fixed := 4
+	if c.Arch == "x86_64" {
+		fixed = 6
+	}
+	rest := c.Target - fixed
+	for rest > 0 {
+		n := rapid.IntRange(60, 200).Draw(t, "groupNames")
+		if rest-(n+2) < 8 {
+			n = rest - 2
+			if n > 200 {
+				n = 150
+			} else {
+				if n < 3 {
+					break
+				}
+				c.Groups = append(c.Groups, n)
+				break
+			}
+		}
+		c.Groups = append(c.Groups, n)
+		rest -= n + 2
+	}
+	return c
+}
+
+func TestC07SizeBoundary(t *testing.T) {
+	ev.Prop(t, "C07", "size-boundary", drawC07Size, checkC07Size)
+}
